@@ -384,7 +384,10 @@ def apply_splices(body, splices, log, what):
         eol = body.find("\n", m.end())
         if sp.get("inline"):
             eol = m.end() - 1
-        body = body[:eol + 1] + sp["text"].rstrip("\n") + "\n" + body[eol + 1:]
+        txt = sp["text"]
+        for gi in range(1, (m.lastindex or 0) + 1):      # rename-tolerant hints: {g1}, {g2} = names bound / used in the anchored statement
+            txt = txt.replace("{g%d}" % gi, m.group(gi) or "")
+        body = body[:eol + 1] + txt.rstrip("\n") + "\n" + body[eol + 1:]
         log.append("splice proof block after /%s/" % sp["after"])
     return body
 
@@ -394,9 +397,14 @@ def contract_fn(text, opts, log, what):
     text = rule_R0(text, log)
     for r in opts.get("rewrites", []):
         text = {"R1": rule_R1, "R2": rule_R2}[r](text, log)
-    for pat, rep in opts.get("subst", []):
+    for sub in opts.get("subst", []):
+        pat, rep = sub[0], sub[1]
+        optional = len(sub) > 2 and sub[2] == "optional"
         new, n = re.subn(pat, rep, text)
         if n == 0:
+            if optional:
+                log.append("optional subst %r: anchor absent, skipped" % pat)
+                continue
             raise AnchorLost("subst anchor %r lost in %s" % (pat, what))
         log.append("subst %r -> %r (%d)" % (pat, rep, n))
         text = new
